@@ -1,10 +1,12 @@
 (* C03 — the fitted proposal: sampling and evaluation agree; every data-transform Jacobian is accounted for.
    PARTIAL by nature: that exp(log_prob) integrates to one needs a change of variables for the underlying flow's
    density (zuko / flowjax, trusted) — in 1-2 dims it is checked by quadrature in the search; no multivariate
-   integration library is available to prove it.  What IS proved, about the four methods regenerated from both
+   integration library is available to prove it.  In ONE coordinate the data-transform layer is proved to preserve the
+   mass of every interval (the three mass_preserved theorems below), so there the only trusted part is the underlying flow's own density.  What IS proved, about the four methods regenerated from both
    back-ends (Gen/Flows.v), for every base density, every data transform satisfying C04, every batch: *)
 From Coq Require Import Reals List Bool.
-From AV Require Import Lib.Vec Gen.Flows Proofs.C03.
+From Coquelicot Require Import Coquelicot.
+From AV Require Import Lib.Vec Gen.Flows Proofs.C03 Proofs.C04 Proofs.C03mass.
 Import ListNotations.
 Open Scope R_scope.
 
@@ -26,5 +28,33 @@ Proof.
   - now apply zuko_sample_eval_agree.
 Qed.
 
+(* ONE coordinate: a density of the shape just proved, exp(Base(T x) + ln|T'(x)|), carries on every interval [a,b] exactly the
+   mass the base density has on [T a, T b] (substitution rule) — for every increasing differentiable data transform ... *)
+Theorem C03_mass_preserved_1d_partial : forall (Base T dT : R -> R) (a b : R),
+  (forall x, Rmin a b <= x <= Rmax a b -> is_derive T x (dT x) /\ continuous dT x) ->
+  (forall x, Rmin a b <= x <= Rmax a b -> continuous Base (T x)) ->
+  (forall x, Rmin a b <= x <= Rmax a b -> 0 < dT x) ->
+  RInt (fun x => exp (Base (T x) + ln (Rabs (dT x)))) a b = RInt (fun z => exp (Base z)) (T a) (T b).
+Proof. exact mass_preserved_incr. Qed.
+
+(* ... in particular for the LogitTransform coordinate (whose derivative is the one C04_logit_forward_logj reports), on every
+   closed interval inside (lower, upper) ... *)
+Theorem C03_logit_mass_preserved_partial : forall (Base : R -> R) (lo up a b : R),
+  lo < up -> lo < Rmin a b -> Rmax a b < up ->
+  (forall x, Rmin a b <= x <= Rmax a b -> continuous Base (logit_coord lo up x)) ->
+  RInt (fun x => exp (Base (logit_coord lo up x) + ln (Rabs (logit_coord_d lo up x)))) a b
+  = RInt (fun z => exp (Base z)) (logit_coord lo up a) (logit_coord lo up b).
+Proof. exact logit_mass_preserved. Qed.
+
+(* ... and for the AffineTransform coordinate (standardisation by a positive scale) *)
+Theorem C03_affine_mass_preserved_partial : forall (Base : R -> R) (m s a b : R), 0 < s ->
+  (forall x, Rmin a b <= x <= Rmax a b -> continuous Base (affine_fwd x m s)) ->
+  RInt (fun x => exp (Base (affine_fwd x m s) + ln (Rabs (/ s)))) a b
+  = RInt (fun z => exp (Base z)) (affine_fwd a m s) (affine_fwd b m s).
+Proof. exact affine_mass_preserved. Qed.
+
 Print Assumptions C03_log_prob_includes_jacobian_partial.
+Print Assumptions C03_mass_preserved_1d_partial.
+Print Assumptions C03_logit_mass_preserved_partial.
+Print Assumptions C03_affine_mass_preserved_partial.
 Print Assumptions C03_sample_eval_agree.
